@@ -47,6 +47,10 @@ var (
 		"Environ": true, "Executable": true, "Exit": true, "Stdin": true, "TempDir": true, "File": true,
 		"Hostname": true, "Getuid": true, "Geteuid": true, "ExpandEnv": true, "SameFile": true,
 	}
+	// package-level functions of math/rand and math/rand/v2 (randomly seeded by the runtime in every process)
+	randFuncs = map[string]bool{"Int": true, "Intn": true, "Int31": true, "Int31n": true, "Int63": true, "Int63n": true, "Uint32": true, "Uint64": true,
+		"Float32": true, "Float64": true, "NormFloat64": true, "ExpFloat64": true, "Perm": true, "Shuffle": true, "Seed": true, "Read": true,
+		"IntN": true, "Int32": true, "Int32N": true, "Int64": true, "Int64N": true, "Uint": true, "UintN": true, "Uint32N": true, "Uint64N": true, "N": true}
 	lockNames = map[string]string{"Lock": "Lock", "Unlock": "Unlock", "RLock": "RLock", "RUnlock": "RUnlock", "TryLock": "TryLock", "TryRLock": "TryRLock"}
 	// function name -> receiver type name ("" = plain function); wrapped with a tap
 	tapFuncs = map[string]string{"SearchUniversal": "Database", "RecoverFromSearchFailure": "SearchRecovery"}
@@ -64,6 +68,7 @@ type report struct {
 	OsUnshimmed     map[string]int `json:"os_unshimmed"`
 	LockSites       int            `json:"lock_sites"`
 	AtomicSites     int            `json:"atomic_sites"`
+	RandCalls       int            `json:"rand_calls"`
 	GoStmts         []string       `json:"go_statements"`
 	Taps            []string       `json:"taps"`
 	Warnings        []string       `json:"warnings"`
@@ -251,6 +256,7 @@ func (r *rewriter) run() {
 		ranges  []*ast.RangeStmt
 		timeSel []*ast.SelectorExpr
 		osSel   []*ast.SelectorExpr
+		randSel []*ast.SelectorExpr
 		locks   []lockCall
 		atomics []*ast.CallExpr
 		gos     []*ast.GoStmt
@@ -286,6 +292,12 @@ func (r *rewriter) run() {
 				} else if n := x.Sel.Name; n == "After" || n == "AfterFunc" || n == "NewTimer" || n == "NewTicker" || n == "Tick" {
 					r.rep.TimeUnshimmed = append(r.rep.TimeUnshimmed, r.site(x.Pos())+" time."+n)
 				}
+			case "math/rand", "math/rand/v2":
+				if randFuncs[x.Sel.Name] {
+					randSel = append(randSel, x)
+				}
+			case "crypto/rand":
+				r.rep.Warnings = append(r.rep.Warnings, r.site(x.Pos())+" crypto/rand."+x.Sel.Name+" is not simulated (uncontrolled randomness)")
 			case "os":
 				if osNames[x.Sel.Name] {
 					osSel = append(osSel, x)
@@ -351,6 +363,12 @@ func (r *rewriter) run() {
 		se.X.(*ast.Ident).Name = "simtime"
 		r.rep.TimeCalls++
 		r.need["simtime"] = true
+		r.changed = true
+	}
+	for _, se := range randSel {
+		se.X.(*ast.Ident).Name = "simrand"
+		r.rep.RandCalls++
+		r.need["simrand"] = true
 		r.changed = true
 	}
 	for _, se := range osSel {
@@ -591,13 +609,16 @@ func (r *rewriter) write(filename string) error {
 	// imports whose every use was redirected become blank imports
 	for _, is := range r.file.Imports {
 		p, _ := strconv.Unquote(is.Path.Value)
-		if p != "time" && p != "os" && p != "sync/atomic" && p != "sync" {
+		if p != "time" && p != "os" && p != "sync/atomic" && p != "sync" && p != "math/rand" && p != "math/rand/v2" {
 			continue
 		}
 		if is.Name != nil && (is.Name.Name == "_" || is.Name.Name == ".") {
 			continue
 		}
 		local := filepath.Base(p)
+		if p == "math/rand/v2" {
+			local = "rand"
+		}
 		if is.Name != nil {
 			local = is.Name.Name
 		}
